@@ -44,6 +44,13 @@ def body(c):
     c.extra.update({"configurations_in_model": total, "configurations_replayed": len(cases), "calls": len(tr), "routes_exercised": routes,
                     "lowbit_scales_exact": sum(1 for t in tr if t[0].get("lowbit_scale_exact")),
                     "families": sorted({t[0]["cfg"]["fam"] for t in tr})})
+    kinds = {}
+    for t in tr:
+        kinds[t[0]["kind"]] = kinds.get(t[0]["kind"], 0) + 1
+    c.extra["calls_by_kind"] = kinds
+    for need in ("linear", "matmul", "bmm", "bmm_plain"):
+        if not kinds.get(need):
+            raise MachineryError(f"vacuity: no {need} call")
     for need in ("int_mm", "default", "float_matmul"):
         if not routes.get(need):
             raise MachineryError(f"vacuity: route {need} never observed")
